@@ -17,8 +17,10 @@ mod mon_c04;
 mod mon_c05;
 mod mon_c06;
 mod mon_c07;
+mod mon_c08;
 mod mon_c09;
 mod mon_c10;
+mod mon_c11;
 mod mon_c12;
 mod mon_c13;
 mod mon_c14;
@@ -43,8 +45,10 @@ fn main() {
         "c05" => mon_c05::run(&args),
         "c06" => mon_c06::run(&args),
         "c07" => mon_c07::run(&args),
+        "c08" => mon_c08::run(&args),
         "c09" => mon_c09::run(&args),
         "c10" => mon_c10::run(&args),
+        "c11" => mon_c11::run(&args),
         "c12" => mon_c12::run(&args),
         "c13" => mon_c13::run(&args),
         "c14" => mon_c14::run(&args),
